@@ -38,7 +38,7 @@ Example ring2_fixed_point : fixed_point w2 xs2.
 Proof.
   intros [|[|[|c]]] b ts F; cbn in F; inversion F; subst; vm_compute; reflexivity.
 Qed.
-Example ring2_row_bound : row_bound w2 (1#2).
+Example ring2_row_bound : row_bound_f w2 (1#2).
 Proof.
   intros [|[|[|c]]] b ts F; cbn in F; inversion F; subst; closed_le.
 Qed.
@@ -117,7 +117,7 @@ Example self_no_sum : no_sum w1.
 Proof. intros [|[|c]] b ts F; cbn in F; inversion F; subst; intros t [<-|[]]; exact I. Qed.
 Example self_fixed_point : fixed_point w1 xs1.
 Proof. intros [|[|c]] b ts F; cbn in F; inversion F; subst; vm_compute; reflexivity. Qed.
-Example self_row_bound : row_bound w1 (1#2).
+Example self_row_bound : row_bound_f w1 (1#2).
 Proof. intros [|[|c]] b ts F; cbn in F; inversion F; subst; closed_le. Qed.
 Example self_ready : cone_ready w1 xs1 0 st1a.
 Proof.
@@ -205,17 +205,18 @@ Qed.
 
 (* ------------------------------------------------------------------ *)
 (* 4. From the initial state: a system with a constant k (= 1, later     *)
-(*    written to 8):  x = 0.25 y + 0.25 k,  y = 0.25 x + 2.              *)
+(*    written to 8):  x = 0.25 y + k,  y = 0.25 x + 2  (the reference  *)
+(*    to the constant, coefficient 1, is not part of ||A||inf = 1/4).    *)
 (*    The hypotheses of C06_converged follow from the history alone.    *)
 
 Definition w4 : wbook :=
-  {| w_cells := [ {| stored := None; formula := Some (0, [TCell (1#4) 1%nat; TCell (1#4) 2%nat]) |};
+  {| w_cells := [ {| stored := None; formula := Some (0, [TCell (1#4) 1%nat; TCell 1 2%nat]) |};
                   {| stored := None; formula := Some (2, [TCell (1#4) 0%nat]) |};
                   {| stored := Some 1; formula := None |} ];
      w_ranges := [] |}.
-(* fixed point for k: x = (4 k + 8) / 15, y = (k + 32) / 15 *)
+(* fixed point for k: x = (16 k + 8) / 15, y = (4 k + 32) / 15 *)
 Definition xs4 (k : Q) (c : nat) : Q :=
-  match c with 0%nat => (4 * k + 8) / 15 | 1%nat => (k + 32) / 15 | 2%nat => k | _ => 0 end.
+  match c with 0%nat => (16 * k + 8) / 15 | 1%nat => (4 * k + 32) / 15 | 2%nat => k | _ => 0 end.
 
 Example hist_no_sum : no_sum w4.
 Proof.
@@ -226,7 +227,7 @@ Example hist_fixed_point : forall k, fixed_point w4 (xs4 k).
 Proof.
   intros k [|[|[|[|c]]]] b ts F; cbn in F; inversion F; subst; cbn [tdot xs4]; field.
 Qed.
-Example hist_row_bound : row_bound w4 (1#2).
+Example hist_row_bound : row_bound_f w4 (1#4).
 Proof. intros [|[|[|[|c]]]] b ts F; cbn in F; inversion F; subst; closed_le. Qed.
 
 Definition r4a : res (val * state) := Eval vm_compute in evaluate_iterative w4 0 100 tol3 (init_state w4).
@@ -258,10 +259,13 @@ Proof.
 Qed.
 
 (* the re-evaluation after the write is within q/(1-q) (1+1e-5) tol of the new fixed point 8/3 *)
-Example hist_converged : dist (xs4 8) 0 (v_of r4c) <= (1#2) / (1 - (1#2)) * (rel1 * tol3).
+Example hist_converged : dist (xs4 8) 0 (v_of r4c) <= (1#4) / (1 - (1#4)) * (rel1 * tol3).
 Proof.
-  assert (Hq0 : 0 <= 1#2) by closed_le. assert (Hq1 : (1#2) < 1) by reflexivity.
-  destruct (converged w4 (xs4 8) (1#2) hist_no_sum (hist_fixed_point 8) hist_row_bound Hq0 Hq1
+  assert (Hq0 : 0 <= 1#4) by closed_le. assert (Hq1 : (1#4) < 1) by reflexivity.
+  destruct (converged w4 (xs4 8) (1#4) hist_no_sum (hist_fixed_point 8) hist_row_bound Hq0 Hq1
               0%nat 100%Z tol3 st4b _ _ hist_ready hist_run2 hist_early) as (_ & H & _).
   apply H. reflexivity.
 Qed.
+(* with the coefficient of k counted, the row norm would be 5/4: no contraction *)
+Example hist_row_tnorm : ~ row_bound w4 1.
+Proof. intros H. specialize (H 0%nat _ _ eq_refl). vm_compute in H. apply H. reflexivity. Qed.
